@@ -108,6 +108,32 @@ def _lockpath(lock):
     return os.path.realpath(str(p))
 
 
+def harness_guard(fn):
+    """A bug of the simulator inside a seam must never look like a failure of the code under
+    test (which would catch it and, say, put the job in error): anything but the exceptions a
+    seam raises on purpose (OSError family, Abandon) stops the run as a harness failure."""
+    import functools
+
+    from .kernel import Abandon
+
+    @functools.wraps(fn)
+    def wrapper(*a, **kw):
+        try:
+            return fn(*a, **kw)
+        except (OSError, Abandon, real_psutil.Error, SystemExit, KeyboardInterrupt):
+            raise
+        except BaseException as e:
+            import traceback
+
+            if W is not None and not getattr(W.k, "harness_exc", None):
+                W.k.harness_exc = "%s in seam %s: %s | %s" % (type(e).__name__, fn.__qualname__, e, traceback.format_exc()[-500:])
+                W.k.stop_requested = "harness"
+            raise
+
+    return wrapper
+
+
+@harness_guard
 def sim_trylock(self):
     p = _lockpath(self)
     pid = cur_pid()
@@ -121,6 +147,7 @@ def sim_trylock(self):
     W.k.log("flock", path=W.rel(p))
 
 
+@harness_guard
 def sim_unlock(self):
     p = _lockpath(self)
     pid = cur_pid()
@@ -161,6 +188,7 @@ class SimThread:
         cur = W.k.current
         self.daemon = daemon if daemon is not None else (cur.daemon if cur is not None else False)
 
+    @harness_guard
     def start(self):
         n = W.next_name("T")
         kind = "helper"
@@ -331,6 +359,7 @@ class JobProc(SimProc):
 
 
 class SimPopen:
+    @harness_guard
     def __init__(self, command, stdin=None, stdout=None, stderr=None, env=None, **kw):
         for f in (stdin, stdout, stderr):
             if hasattr(f, "close"):
@@ -351,6 +380,7 @@ class SimPopen:
         if jp.x is not None:
             for u in w.upstreams(jp.x):
                 ups[str(u)] = w.marker_exists(u, "done")
+        w.last_spawn[(parent, jp.x)] = w.k.seq
         w.k.log("spawn", jpid=pid, x=jp.x, ups_done=ups, done=w.marker_exists(jp.x, "done") if jp.x is not None else None)
         for f in w.on_spawn:
             f(jp)
@@ -558,6 +588,7 @@ class StateDesc:
             return self
         return obj.__dict__["_sim_state"]
 
+    @harness_guard
     def __set__(self, obj, v):
         old = obj.__dict__.get("_sim_state")
         obj.__dict__["_sim_state"] = v
@@ -734,10 +765,80 @@ def install():
     xrun.signal = Proxy(real_signal, signal=sim_signal_signal, getsignal=sim_getsignal)
     xrun.report_eoj = lambda: None
     xrun.progress = lambda *a, **kw: None
+    rebind_by_identity(thr)
     preinit_types()
     from . import cliops
 
     cliops.install()
+
+
+SIM_PATH_MODULES = (
+    "experimaestro.scheduler.base", "experimaestro.scheduler.dependencies", "experimaestro.scheduler.workspace",
+    "experimaestro.tokens", "experimaestro.locking", "experimaestro.commandline", "experimaestro.scriptbuilder",
+    "experimaestro.connectors", "experimaestro.connectors.local", "experimaestro.ipc", "experimaestro.run",
+    "experimaestro.utils.asyncio", "experimaestro.launchers.direct", "experimaestro.tools.jobs",
+    "experimaestro.cli", "experimaestro.cli.jobs", "experimaestro.cli.filter",
+)
+
+
+def rebind_by_identity(thr):
+    """The seams above are module attributes with the names the pinned tree uses (`tokens.os`,
+    `connectors.local.subprocess`, ...).  A module that reaches the same primitive through another
+    name (`from threading import Thread, Lock as ThreadLock`, `from subprocess import Popen`,
+    `from time import time as now`, `shutil.rmtree` instead of `rmtree`) would silently escape the
+    simulator, so every name of the modules on the simulated path that is bound to a real
+    primitive - whatever it is called - is rebound to its simulated counterpart."""
+    import shutil as real_shutil
+    import time as real_time
+    import atexit as real_atexit
+
+    from . import cliops
+    from watchdog.observers import Observer as RealObserver
+
+    sub = xlocal.subprocess if isinstance(xlocal.subprocess, Proxy) else Proxy(real_subprocess, Popen=SimPopen)
+    simtime = lambda: W.k.now  # noqa: E731
+    objects = [
+        (real_threading.Thread, SimThread), (real_threading.Lock, SimMutex),
+        (real_subprocess.Popen, SimPopen), (os.getpid, cur_pid), (real_time.time, simtime),
+        (real_psutil.Process, SimPsutil.Process), (RealObserver, SimObserver),
+        (real_signal.signal, sim_signal_signal), (real_signal.getsignal, sim_getsignal),
+        (real_shutil.rmtree, cliops.sim_rmtree),
+    ]
+    modules = {
+        id(real_threading): lambda m: thr,
+        id(real_subprocess): lambda m: sub,
+        id(real_psutil): lambda m: SimPsutil,
+        id(os): lambda m: Proxy(os, getpid=cur_pid),
+        id(real_time): lambda m: Proxy(real_time, time=simtime),
+        id(real_signal): lambda m: Proxy(real_signal, signal=sim_signal_signal, getsignal=sim_getsignal),
+        id(real_shutil): lambda m: Proxy(real_shutil, rmtree=cliops.sim_rmtree),
+    }
+    for name in SIM_PATH_MODULES:
+        mod = sys.modules.get(name)
+        if mod is None:
+            continue
+        for attr, val in list(vars(mod).items()):
+            if isinstance(val, types.ModuleType) and id(val) in modules:
+                setattr(mod, attr, modules[id(val)](mod))
+                continue
+            for real, sim in objects:
+                if val is real:
+                    setattr(mod, attr, sim)
+                    break
+    # run.py: the job process' own view (working directory, fork hooks, exit callbacks)
+    for attr, val in list(vars(xrun).items()):
+        if val is real_atexit:
+            setattr(xrun, attr, SimAtexit)
+        elif val is real_atexit.register:
+            setattr(xrun, attr, SimAtexit.register)
+        elif val is real_atexit.unregister:
+            setattr(xrun, attr, SimAtexit.unregister)
+        elif val is os.chdir:
+            setattr(xrun, attr, lambda d: setattr(W.curproc(), "cwd", Path(d)))
+        elif val is getattr(os, "register_at_fork", None):
+            setattr(xrun, attr, lambda **kw: None)
+        elif val is Path or val is PosixPath:
+            setattr(xrun, attr, SimPath)
 
 
 def preinit_types():
@@ -822,6 +923,7 @@ class World:
         self.on_kill = []
         self.jobdir_variant = {}
         self.lock_holders = {}
+        self.last_spawn = {}       # (scheduler pid, x) -> seq of its last simulated Popen for x
         self.on_body_start = []
         self.state_listeners = []
         self.jobx = {}         # id(job) -> x
@@ -917,6 +1019,12 @@ class World:
 
     def on_state(self, job, old, new, where):
         x = self.x_of_job(job)
+        # semantic tag, independent of function names in /repo: a job that becomes RUNNING in a
+        # scheduler that has not started a process for it since the job object's previous state
+        # change has been *adopted* (a process of an earlier run was found alive)
+        prev = job.__dict__.get("_sim_state_seq", -1)
+        adopt = new.name == "RUNNING" and self.last_spawn.get((cur_pid(), x), -1) < prev
+        job.__dict__["_sim_state_seq"] = self.k.seq
         self.k.log(
             "state",
             x=x,
@@ -924,6 +1032,7 @@ class World:
             old=old.name if old is not None else None,
             new=new.name,
             where=where,
+            adopt=adopt,
         )
         for f in self.state_listeners:
             f(job, x, old, new, where)
